@@ -189,11 +189,11 @@ func (s fsSpec) materialise(path string, id *int) error {
 		}
 		return os.WriteFile(path, b, 0o644)
 	case "Lr":
-		return os.Symlink("../a", path)
+		return os.Symlink("./../a/", path) // not in cleaned form on purpose: the target text is carried verbatim
 	case "La":
-		return os.Symlink("/etc/hostname", path)
+		return os.Symlink("/etc//hostname", path)
 	case "Ld":
-		return os.Symlink("does/not/exist", path)
+		return os.Symlink("does/./not/../exist", path)
 	case "P":
 		return syscall.Mkfifo(path, 0o644)
 	case "S":
